@@ -14,7 +14,10 @@ recursion through `List Tmpl`), so closed instances reduce by `decide`.
 * `Tmpl`   — `"…"` literal / unquoted text (`text`; rstml `Node::Text` / `Node::RawText`, both printed
              through the same two sites), `{expr}` with a `String` value (`block`), element (`elem`:
              HTML, void, SVG, custom — the tag decides), fragment `<>…</>` (`frag`), and `comp`: the
-             component `<Wrap>…</Wrap>` with `fn Wrap(children: Children) = view!{<section>{children()}</section>}`.
+             component `<Wrap>…</Wrap>` with `fn Wrap(children: Children) = view!{<section>{children()}</section>}`,
+             `<!-- "…" -->` (`comment`: rstml `Node::Comment`; `node_to_tokens` drops it, `is_inert_element` takes it
+             for "not inert") and `<!DOCTYPE html>` (`doctype`; only as the first root node: tachys' `Doctype`
+             leaves the position untouched, the model treats it like an inert string).
   Values of dynamic positions are part of the template (the case supplies them).
 
 ## Part 2 — the macro-time (inert) path
@@ -86,6 +89,8 @@ inductive Tmpl where
   | elem (tag : Str) (attrs : List TAttr) (kids : List Tmpl)
   | frag (kids : List Tmpl)
   | comp (kids : List Tmpl)
+  | comment (s : Str)
+  | doctype
   deriving Repr
 
 /-! ## Part 2 — the inert path -/
@@ -151,6 +156,7 @@ def macroNoEscapeOld : List Str := [tScript, tStyle, tTextarea]
 def sParam : Str := ['p','a','r','a','m']
 def sSection : Str := ['s','e','c','t','i','o','n']
 def sWrap : Str := ['W','r','a','p']
+def sDoctype : Str := ['<','!','D','O','C','T','Y','P','E',' ','h','t','m','l','>']
 
 def isSvgTag (t : Str) : Bool := svgTags.contains t
 def isMathTag (t : Str) : Bool := mathTags.contains t
@@ -178,6 +184,8 @@ def inertNode : Tmpl → Bool
   | .elem _ attrs kids => attrs.all attrInert && inertKids kids
   | .frag _ => false
   | .comp _ => false
+  | .comment _ => false
+  | .doctype => false
 def inertKids : List Tmpl → Bool
   | [] => true
   | t :: ts => inertNode t && inertKids ts
@@ -222,6 +230,8 @@ def inertNodeHtml (escape : Bool) : Tmpl → Str
   | .frag _ => []
   | .comp kids =>
     '<' :: sWrap ++ '>' :: (inertKidsHtml (macroEscapes sWrap) kids ++ '<' :: '/' :: sWrap ++ ['>'])
+  | .comment _ => []
+  | .doctype => []
 def inertKidsHtml (escape : Bool) : List Tmpl → Str
   | [] => []
   | t :: ts => inertNodeHtml escape t ++ inertKidsHtml escape ts
@@ -254,6 +264,8 @@ def inertNodeHtmlOld (escape : Bool) : Tmpl → Str
   | .frag _ => []
   | .comp kids =>
     '<' :: sWrap ++ '>' :: (inertKidsHtmlOld (macroEscapesOld sWrap) kids ++ '<' :: '/' :: sWrap ++ ['>'])
+  | .comment _ => []
+  | .doctype => []
 def inertKidsHtmlOld (escape : Bool) : List Tmpl → Str
   | [] => []
   | t :: ts => inertNodeHtmlOld escape t ++ inertKidsHtmlOld escape ts
@@ -294,6 +306,8 @@ def builderView : Tmpl → List Node
     [.elem tag (builderAttrs attrs) (if macroIsVoid tag then [] else builderKids kids)]
   | .frag kids => builderKids kids
   | .comp kids => [.elem sSection [] (builderKids kids)]
+  | .comment _ => []
+  | .doctype => []
 def builderKids : List Tmpl → List Node
   | [] => []
   | t :: ts => builderView t ++ builderKids ts
@@ -316,6 +330,8 @@ def expand (top : Bool) : Tmpl → List Exp
     else [.elem tag (builderAttrs attrs) (if macroIsVoid tag then [] else expandKids false kids)]
   | .frag kids => expandKids true kids
   | .comp kids => [.elem sSection [] (expandKids true kids)]
+  | .comment _ => []
+  | .doctype => [.inert sDoctype]
 def expandKids (top : Bool) : List Tmpl → List Exp
   | [] => []
   | t :: ts => expand top t ++ expandKids top ts
@@ -351,6 +367,8 @@ def expandOld (top : Bool) : Tmpl → List Exp
     else [.elem tag (builderAttrs attrs) (if macroIsVoid tag then [] else expandKidsOld false kids)]
   | .frag kids => expandKidsOld true kids
   | .comp kids => [.elem sSection [] (expandKidsOld true kids)]
+  | .comment _ => []
+  | .doctype => [.inert sDoctype]
 def expandKidsOld (top : Bool) : List Tmpl → List Exp
   | [] => []
   | t :: ts => expandOld top t ++ expandKidsOld top ts
@@ -462,6 +480,8 @@ def denK (esc : Bool) : Tmpl → List Tree → List Tree
     .elem tag (denAttrs attrs) (if isVoid tag then [] else denKs (escapeChildren tag) kids []) :: acc
   | .frag kids, acc => denKs esc kids acc
   | .comp kids, acc => .elem sSection [] (denKs true kids []) :: acc
+  | .comment _, acc => acc
+  | .doctype, acc => acc
 def denKs (esc : Bool) : List Tmpl → List Tree → List Tree
   | [], acc => acc
   | t :: ts, acc => denK esc t (denKs esc ts acc)
@@ -486,6 +506,8 @@ def dynamize : Tmpl → Tmpl
   | .elem tag attrs kids => .elem tag (attrs.map dynAttr) (dynKids kids)
   | .frag kids => .frag (dynKids kids)
   | .comp kids => .comp (dynKids kids)
+  | .comment s => .comment s
+  | .doctype => .doctype
 def dynKids : List Tmpl → List Tmpl
   | [] => []
   | t :: ts => dynamize t :: dynKids ts
@@ -526,52 +548,10 @@ def attrClassStrings : TAttr → List Str
   | .clsTuple n _ => [n]
   | _ => []
 
-mutual
-/-- class `empty-text` (negated): no empty text literal and no empty `{block}` value -/
-def noEmptyText : Tmpl → Bool
-  | .text s => s != []
-  | .block s => s != []
-  | .elem _ _ kids => noEmptyTextKids kids
-  | .frag kids => noEmptyTextKids kids
-  | .comp kids => noEmptyTextKids kids
-def noEmptyTextKids : List Tmpl → Bool
-  | [] => true
-  | t :: ts => noEmptyText t && noEmptyTextKids ts
-end
-
-mutual
-/-- class `class-unicode-ws` (negated) -/
-def classWsOK : Tmpl → Bool
-  | .text _ => true
-  | .block _ => true
-  | .elem _ attrs kids => (attrs.flatMap attrClassStrings).all wsOK && classWsOKKids kids
-  | .frag kids => classWsOKKids kids
-  | .comp kids => classWsOKKids kids
-def classWsOKKids : List Tmpl → Bool
-  | [] => true
-  | t :: ts => classWsOK t && classWsOKKids ts
-end
-
 def isTextLike : Tmpl → Bool
   | .text _ => true
   | .block _ => true
   | _ => false
-
-mutual
-/-- class `raw-text-children` (negated): elements whose content the HTML parser does not tokenise as
-markup (`script style textarea noscript`, and `title`) have no children / one string (`title`) -/
-def rawKidsOK : Tmpl → Bool
-  | .text _ => true
-  | .block _ => true
-  | .elem tag _ kids =>
-    (if tag = tTitle then kids.length ≤ 1 && kids.all isTextLike
-     else if escapeChildren tag then true else kids.isEmpty) && rawKidsOKKids kids
-  | .frag kids => rawKidsOKKids kids
-  | .comp kids => rawKidsOKKids kids
-def rawKidsOKKids : List Tmpl → Bool
-  | [] => true
-  | t :: ts => rawKidsOK t && rawKidsOKKids ts
-end
 
 /-! ### the finding classes, as the driver attaches them to a failing verdict -/
 
@@ -592,6 +572,8 @@ def seenNode (top escape : Bool) : Tmpl → List Seen
     else .belem tag attrs kids :: (if macroIsVoid tag then [] else seenKids false (escapeChildren tag) kids)
   | .frag kids => seenKids true escape kids
   | .comp kids => .belem sSection [] kids :: seenKids true true kids
+  | .comment _ => []
+  | .doctype => []
 def seenKids (top escape : Bool) : List Tmpl → List Seen
   | [] => []
   | t :: ts => seenNode top escape t ++ seenKids top escape ts
